@@ -15,6 +15,81 @@ import (
 var gens = map[string]GenFn{
 	"RelaySrc":     genRelaySrc,
 	"RelayAcctSrc": genRelayAcctSrc,
+	"RelayHttpSrc": genRelayHttpSrc,
+}
+
+// genRelayHttpSrc reads from pkg/stream/http/stream.go how the HTTP/1 stream layer hands a proxied message's header
+// section over (C01, header fields and body):
+//   - clientStream.AppendHeaders copies the request header with fasthttp's RequestHeader.CopyTo (raw fields, cookies not
+//     collected) and whether it switches fasthttp's default Content-Type off afterwards
+//   - serverStream.AppendHeaders (ResponseHeader case) copies with CopyTo and whether it switches the default off
+//   - serve() deletes Expect after answering 100 Continue; AppendHeaders deletes Connection only when the close flag is set
+func genRelayHttpSrc(repo string) (string, error) {
+	fset, f, err := ParseGoFile(repo, "pkg/stream/http/stream.go")
+	if err != nil {
+		return "", err
+	}
+	stmts := func(recv, fn string) ([]string, error) {
+		fd := FindFunc(f, recv, fn)
+		if fd == nil {
+			return nil, fmt.Errorf("%s.%s not found", recv, fn)
+		}
+		var out []string
+		ast.Inspect(fd.Body, func(n ast.Node) bool {
+			if es, ok := n.(*ast.ExprStmt); ok {
+				out = append(out, exprStr(fset, es.X))
+			}
+			return true
+		})
+		return out, nil
+	}
+	idx := func(l []string, want string) int {
+		for i, s := range l {
+			if s == want {
+				return i
+			}
+		}
+		return -1
+	}
+	cs, err := stmts("clientStream", "AppendHeaders")
+	if err != nil {
+		return "", err
+	}
+	ss, err := stmts("serverStream", "AppendHeaders")
+	if err != nil {
+		return "", err
+	}
+	sv, err := stmts("serverStreamConnection", "serve")
+	if err != nil {
+		return "", err
+	}
+	cCopy := idx(cs, "headers.CopyTo(&s.request.Header)")
+	cNoDef := idx(cs, "s.request.Header.SetNoDefaultContentType(true)")
+	sCopy := idx(ss, "headers.CopyTo(&s.response.Header)")
+	sNoDef := idx(ss, "s.response.Header.SetNoDefaultContentType(true)")
+	noPre := idx(sv, "request.ReadLimitBody(conn.br, maxRequestBodySize)") < 0
+	nContinue := 0
+	for _, x := range sv {
+		if strings.HasSuffix(x, "request.ContinueReadBody(conn.br, maxRequestBodySize, false)") {
+			nContinue++
+		}
+	}
+	if fd := FindFunc(f, "serverStreamConnection", "serve"); fd != nil {
+		// the two body reads are assignments (err = ...), not expression statements
+		body := exprStr(fset, fd.Body)
+		nContinue = strings.Count(body, "request.ContinueReadBody(conn.br, maxRequestBodySize, false)")
+		noPre = !strings.Contains(body, "ReadLimitBody(") && strings.Contains(body, "request.Header.Read(conn.br)") && nContinue == 2
+	}
+	shape := sCopy >= 0 && idx(sv, "request.Header.Del(\"Expect\")") >= 0 && idx(cs, "headers.Del(\"Connection\")") >= 0 &&
+		idx(cs, "FillRequestHeadersFromCtxVar(context, headers, s.connection.conn.RemoteAddr())") >= 0
+	var out strings.Builder
+	out.WriteString("From MV Require Import Model.RelayHttp.\n\n")
+	fmt.Fprintf(&out, "(* clientStream.AppendHeaders copies with RequestHeader.CopyTo: %v; switches the default request Content-Type off after it: %v;\n   serverStream.AppendHeaders switches the default response Content-Type off after CopyTo: %v *)\n", cCopy >= 0, cNoDef > cCopy && cCopy >= 0, sNoDef > sCopy && sCopy >= 0)
+	fmt.Fprintf(&out, "(* serve() reads the header and then the body with ContinueReadBody(.., false) (no multipart pre-parse, no ReadLimitBody): %v *)\n", noPre)
+	fmt.Fprintf(&out, "Definition src_hsw : sw := mkHsw %s %s %s %s.\n", CoqBool(cCopy >= 0), CoqBool(cNoDef > cCopy && cCopy >= 0), CoqBool(sNoDef > sCopy && sCopy >= 0), CoqBool(noPre))
+	fmt.Fprintf(&out, "(* response CopyTo, Del(\"Expect\") in serve, guarded Del(\"Connection\") and FillRequestHeadersFromCtxVar in clientStream.AppendHeaders *)\nDefinition http_shape_ok : bool := %s.\n", CoqBool(shape))
+	out.WriteString("Definition RelayHttpSrc_translator_ok := true.\n")
+	return out.String(), nil
 }
 
 // genRelayAcctSrc reads WHERE the L4 connection accounting of streamproxy.go sits (C10):
